@@ -35,6 +35,8 @@ type StepObs struct {
 	All       string // state letter + attached flag of every session
 	Upd       uint64 // UPDATE counter of the stepped session
 	AdjIn     []int  // route ids in the stepped session's IPv4 Adj-RIB-In
+	Reg4      int    // clients of the stepped session's IPv4 Adj-RIB-In (-1: no Adj-RIB-In)
+	Reg6      int
 	Delivered bool
 }
 
@@ -60,8 +62,14 @@ func (o StepObs) Token() string {
 	if o.ReadErr {
 		fr = "r"
 	}
-	return fmt.Sprintf("%s/%c/%s/%c/%s/%d/%s/u%d/i%s|L%s/a%sk%s/c%d.%d/T%s", fr, o.State, b01(o.Attached), o.Conn, outs, o.Retry, o.Neg, o.Upd,
-		idsString(o.AdjIn), loc, o.ASNRef, o.CIDRef, o.Clients4, o.Clients6, o.All)
+	reg := func(n int) string {
+		if n < 0 {
+			return "x"
+		}
+		return fmt.Sprint(n)
+	}
+	return fmt.Sprintf("%s/%c/%s/%c/%s/%d/%s/u%d/i%s/g%s.%s|L%s/a%sk%s/c%d.%d/T%s", fr, o.State, b01(o.Attached), o.Conn, outs, o.Retry, o.Neg, o.Upd,
+		idsString(o.AdjIn), reg(o.Reg4), reg(o.Reg6), loc, o.ASNRef, o.CIDRef, o.Clients4, o.Clients6, o.All)
 }
 
 var stateLetter = map[string]byte{"idle": 'I', "connect": 'C', "active": 'A', "openSent": 'S', "openConfirm": 'F', "established": 'E', "cease": 'Z'}
@@ -75,6 +83,8 @@ type liveSess struct {
 
 func importChain(k byte) filter.Chain {
 	switch k {
+	case 'N':
+		return nil // nothing configured: newPeer falls back to the reject-all chain
 	case 'A':
 		return filter.NewAcceptAllFilterChain()
 	case 'R':
@@ -106,7 +116,7 @@ func peerConfig(i int, c SessCfg, v *vrf.VRF) server.PeerConfig {
 		return &server.AddressFamilyConfig{
 			NextHopExtended:   nx,
 			ImportFilterChain: importChain(c.Imp),
-			ExportFilterChain: filter.NewAcceptAllFilterChain(),
+			ExportFilterChain: importChain(c.expOrA()),
 			AddPathRecv:       recv,
 			AddPathSend:       routingtable.ClientOptions{BestOnly: !send, MaxPaths: 4},
 		}
@@ -129,6 +139,9 @@ func msgBytes(m Msg, s *liveSess) []byte {
 	case 'U':
 		asn4, ap4, _ := s.fsm.DecodeOptions()
 		return UpdateBytes(m.Ann, m.Wd, s.cfg.LAS != s.cfg.PAS, s.cfg.PAS, asn4, ap4)
+	case 'A':
+		asn4, ap4, _ := s.fsm.DecodeOptions()
+		return AnnounceWithAttr(m.RID, ExtraAttr(m.Variant), s.cfg.LAS != s.cfg.PAS, s.cfg.PAS, asn4, ap4)
 	case 'P':
 		asn4, ap4, _ := s.fsm.DecodeOptions()
 		return PoisonBytes(m.RID, m.ByASN, m.Val, s.cfg.LAS != s.cfg.PAS, s.cfg.PAS, asn4, ap4)
@@ -180,6 +193,7 @@ func RunCase(c Case) (obs []StepObs, slow bool) {
 	for _, e := range c.Evs {
 		s := ss[e.Sid]
 		var he server.VerifFSMEvent
+		prePanic := ""
 		switch e.Kind {
 		case "e":
 			he = server.VerifFSMEvent{Kind: "admin", Code: e.Code}
@@ -195,10 +209,26 @@ func RunCase(c Case) (obs []StepObs, slow bool) {
 			he = server.VerifFSMEvent{Kind: "connect-retry-timer"}
 		case "brk":
 			he = server.VerifFSMEvent{Kind: "break-conn"}
+		case "ri", "re":
+			func() {
+				defer func() {
+					if rec := recover(); rec != nil {
+						prePanic = fmt.Sprint(rec)
+					}
+				}()
+				if e.Kind == "ri" {
+					s.peer.ReplaceImportFilterChain(importChain(byte(e.Code)))
+				} else {
+					s.peer.ReplaceExportFilterChain(importChain(byte(e.Code)))
+				}
+			}()
 		case "m":
 			he = server.VerifFSMEvent{Kind: "msg", Bytes: msgBytes(e.M, s)}
 		}
 		r := s.fsm.Step(he)
+		if prePanic != "" {
+			r.Panic = "policy replacement: " + prePanic
+		}
 		o := StepObs{Sid: e.Sid, ReadErr: r.FrameErr, Panic: r.Panic, Wedged: r.Wedged, Delivered: r.Delivered}
 		if o.Panic != "" || o.Wedged != "" {
 			obs = append(obs, o)
@@ -230,6 +260,7 @@ func RunCase(c Case) (obs []StepObs, slow bool) {
 			o.AdjIn = append(o.AdjIn, int(rt.Prefix().Addr().Bytes()[1]))
 		}
 		sort.Ints(o.AdjIn)
+		o.Reg4, o.Reg6 = s.fsm.AdjRIBInClients(1, 1), s.fsm.AdjRIBInClients(2, 1)
 		n := s.fsm.Negotiated()
 		adv, remote := s.peer.PeerRoleState()
 		o.Neg = fmt.Sprintf("h%dk%dt%sa%sx%s%s%s%s%s%sr%s%d", int64(n.HoldTime/time.Second), int64(n.KeepaliveTime/time.Millisecond),
@@ -281,8 +312,18 @@ func clusterOf(c SessCfg) uint32 {
 // state's own 1-second poll must not fire while the case is stepped). On a loaded machine that can
 // take many attempts; it gives up only after about two minutes of trying.
 func RunCaseStable(c Case) ([]StepObs, bool) {
+	wedged := func(obs []StepObs) bool {
+		return len(obs) > 0 && obs[len(obs)-1].Wedged != ""
+	}
 	for i := 0; i < 60; i++ {
 		obs, slow := RunCase(c)
+		if wedged(obs) {
+			// a handler that does not return makes the case slow by itself; confirm it once and report it
+			if obs2, _ := RunCase(c); wedged(obs2) {
+				return obs2, true
+			}
+			continue
+		}
 		if !slow {
 			return obs, true
 		}
